@@ -57,6 +57,8 @@ class AsyncEnv:
         self.kept = []                # RPC objects of asynchronous requests the program keeps
         self.schedule = []
         self.pumps = 0
+        self.fault = None             # 'eof-on-next': the server answers the next request by closing the connection
+        self.lost = False             # the program lost the connection on purpose (`drop`)
         self.rec = W.ErrRecorder.make()
         s.add_listener(self.rec)
         s.t.on_write = self._on_write
@@ -72,6 +74,14 @@ class AsyncEnv:
             msg, buf = buf[:i], buf[i + len(DELIM):]
             self.pos += i + len(DELIM)
             replies = self.server(msg.decode('utf-8'))
+            if self.fault == 'eof-on-next':          # the peer got the request and hangs up instead of answering
+                with t.cv:
+                    self.received += 1
+                    self.hold_next = False
+                    self.pending = []
+                    t.cv.notify_all()
+                t.feed_eof()
+                continue
             with t.cv:
                 self.received += 1
                 hold, self.hold_next = self.hold_next, False
@@ -125,6 +135,31 @@ class AsyncEnv:
             self._wait(lambda: self.idle_gen >= g, 'the session thread did not take the replies fed to it')
             gc.collect()
 
+    def drop(self, how):
+        """The connection is lost INSIDE the program (a statement of a with-body):
+        'eof'          the peer closes; returns when the session thread has noticed and ended (`connected` is False)
+        'close'        the application closes the session itself (session.close()), the thread has ended
+        'eof-on-next'  the peer is still there but answers the NEXT request it receives by closing the connection
+        'wr-oserr'     the next write on the transport raises OSError (EPIPE)"""
+        self.lost = True
+        self._wait(lambda: self.received >= len(self.session._q.put_log), 'a queued request was never written')
+        if how == 'eof':
+            self.pending = []
+            self.t.feed_eof()
+            self.session.join(WAIT)
+        elif how == 'close':
+            self.pending = []
+            self.session.close()
+            self.session.join(WAIT)
+        elif how == 'eof-on-next':
+            self.fault = 'eof-on-next'
+        elif how == 'wr-oserr':
+            self.t.answers.append(('raise', BrokenPipeError(32, 'Broken pipe')))
+        else:
+            raise ValueError('drop: %r' % (how,))
+        if how in ('eof', 'close') and self.session.is_alive():
+            self.stuck.append('the session thread did not end after the connection was lost (%s)' % how)
+
     def pump_next(self):
         """the pump after the i-th asynchronous request: k from the case's delivery schedule (0 when exhausted)"""
         i = self.pumps; self.pumps += 1
@@ -136,7 +171,7 @@ class AsyncEnv:
         self.pump(None)
         kept_unanswered = sum(1 for r in self.kept if not (r.event.is_set() and r.reply is not None and r.error is None))
         out = dict(connected=bool(self.session.connected), errback=[type(e).__name__ + ': ' + str(e)[:120] for e in self.rec.errors],
-                   stuck=list(self.stuck), kept=len(self.kept), kept_unanswered=kept_unanswered)
+                   stuck=list(self.stuck), kept=len(self.kept), kept_unanswered=kept_unanswered, lost=self.lost)
         self.kept = []
         if not self.session.stop(WAIT): out['stuck'].append('the session thread did not end after close()')
         return out
